@@ -9,6 +9,7 @@ package mgmtsim
 import (
 	"encoding/json"
 	"fmt"
+	"runtime"
 	"sort"
 	"strings"
 	"testing"
@@ -28,6 +29,7 @@ import (
 	spec "github.com/named-data/ndnd/std/ndn/spec_2022"
 	"github.com/named-data/ndnd/std/utils"
 
+	"verifsim/facesim"
 	"verifsim/kit"
 )
 
@@ -79,6 +81,11 @@ type Op struct {
 	NextHop bool   `json:"nexthop,omitempty"`   // LpPacket carries NextHopFaceId = internal face
 	Name    string `json:"name,omitempty"`      // traffic: Interest name
 	GapMs   int    `json:"gap_ms,omitempty"`    // NoCache only: simulated time that passes after this step (0 = 5000)
+	// Mut != "": the encoded ControlParameters are corrupted in transit by one structure-aware mutation
+	// (facesim.Mutate: length fields, truncation, bit flips, type confusion, insertion)
+	Mut string `json:"mut,omitempty"`
+	At  int    `json:"at,omitempty"`
+	Val uint64 `json:"val,omitempty"`
 }
 
 type Engine struct{}
@@ -234,6 +241,27 @@ func (Engine) Generate(prop string, r *kit.Rand, tier string) *kit.Scenario[Conf
 		}
 		if c.NoCache && r.Chance(0.6) {
 			o.GapMs = kit.Pick(r, []int{1, 100, 500, 999, 1001, 3000})
+		}
+		mutP := 0.04
+		if prop == "C04" {
+			mutP = 0.7
+		}
+		if o.Op == "cmd" && !o.NoParam && r.Chance(mutP) {
+			huge := []uint64{0, 1, 2, 127, 252, 253, 254, 255, 256, 65535, 65536, 1 << 31, 1<<32 - 1, 1 << 32, 1<<63 - 1, 1 << 63, 1<<64 - 1}
+			switch r.Weighted([]int{4, 5, 2, 3, 3, 2}) {
+			case 0:
+				o.Mut, o.At, o.Val = "len", r.Intn(32), kit.Pick(r, huge)
+			case 1:
+				o.Mut, o.At, o.Val = "lenfix", r.Intn(32), kit.Pick(r, huge)
+			case 2:
+				o.Mut, o.At = "trunc", r.Intn(200)
+			case 3:
+				o.Mut, o.At, o.Val = "flip", r.Intn(200), uint64(1+r.Intn(255))
+			case 4:
+				o.Mut, o.At, o.Val = "type", r.Intn(32), uint64(r.Intn(256))
+			case 5:
+				o.Mut, o.At, o.Val = "insert", r.Intn(200), uint64(r.Intn(1<<16))
+			}
 		}
 		sc.Ops = append(sc.Ops, o)
 	}
@@ -440,16 +468,17 @@ func mkName(s string) enc.Name {
 var configured bool
 
 type runner struct {
-	ctx    *kit.Ctx
-	sc     *kit.Scenario[Config, Op]
-	res    *kit.Result
-	m      *model
-	ths    []*fw.Thread
-	links  []*face.NDNLPLinkService // application faces
-	trs    []*face.SimTransport
-	outbox [][][]byte // frames sent to each application face
-	step   int
-	seq    int
+	corrupted int
+	ctx       *kit.Ctx
+	sc        *kit.Scenario[Config, Op]
+	res       *kit.Result
+	m         *model
+	ths       []*fw.Thread
+	links     []*face.NDNLPLinkService // application faces
+	trs       []*face.SimTransport
+	outbox    [][][]byte // frames sent to each application face
+	step      int
+	seq       int
 }
 
 func (e Engine) Run(t *testing.T, ctx *kit.Ctx, sc *kit.Scenario[Config, Op]) *kit.Result {
@@ -593,6 +622,10 @@ func (r *runner) shutdown() {
 }
 
 func (r *runner) fail(class, key, format string, a ...any) bool {
+	// a C04 run corrupts command parameters in transit: only crash and allocation are judged
+	if r.sc.Property == "C04" && !strings.HasPrefix(class, "C04/") {
+		return true
+	}
 	if r.res.Violation == nil {
 		r.res.Violation = &kit.Violation{Class: class, Key: key, Step: r.step, Detail: fmt.Sprintf(format, a...)}
 	}
@@ -664,6 +697,10 @@ func (r *runner) encodeParams(o *Op) []byte {
 		a.Uri = utils.IdPtr(o.P.Uri)
 	}
 	b := (&mgmt.ControlParameters{Val: a}).Encode().Join()
+	if o.Mut != "" {
+		r.ctx.Fault("corrupt-control-parameters-" + o.Mut)
+		return facesim.Mutate(b, o.Mut, o.At, o.Val)
+	}
 	if o.Garble > 0 {
 		r.ctx.Fault("corrupt-control-parameters")
 		if o.Garble-1 < len(b) && o.Garble%2 == 0 {
@@ -800,6 +837,9 @@ func (r *runner) run() {
 		dg.U(sd)
 	}
 	r.res.NonTrivial = accepted >= 1 && refused >= 1
+	if r.sc.Property == "C04" {
+		r.res.NonTrivial = r.corrupted > 0
+	}
 	r.res.Digest = dg.Sum()
 	r.res.SimNanos = int64(time.Duration(r.res.Steps) * 5 * time.Second)
 	r.shutdown()
@@ -840,7 +880,18 @@ func (r *runner) doCmd(o *Op) (int, int) {
 	if !req.exists {
 		return 0, 0 // the requester's face was destroyed earlier: nothing can be sent from it
 	}
+	var ms0, ms1 runtime.MemStats
+	if o.Mut != "" && r.sc.Property == "C04" {
+		runtime.ReadMemStats(&ms0)
+	}
 	resp := r.inject(fi, name, false, o.NextHop)
+	if o.Mut != "" && r.sc.Property == "C04" {
+		runtime.ReadMemStats(&ms1)
+		r.corrupted++
+		if grown := ms1.TotalAlloc - ms0.TotalAlloc; grown > 4<<20+64*uint64(len(name.Bytes())) {
+			r.fail("C04/allocation-out-of-proportion", "mgmt/"+o.Module+"/"+o.Verb, "a command with corrupted parameters (%d bytes) made the forwarder allocate %d bytes", len(name.Bytes()), grown)
+		}
+	}
 	after := r.stateString()
 	key := o.Module + "/" + o.Verb
 
@@ -879,9 +930,9 @@ func (r *runner) doCmd(o *Op) (int, int) {
 	switch {
 	case o.Verb == "frobnicate" || o.Module == "nosuch":
 		want = "any-non-200"
-	case o.NoParam || o.Garble > 0:
+	case o.NoParam || o.Garble > 0 || o.Mut != "":
 		want = "refuse"
-		if o.Garble > 0 {
+		if o.Garble > 0 || o.Mut != "" {
 			want = "any-non-200-or-ok-if-decodable"
 		}
 	case o.Module == "rib" && o.Verb == "register":
